@@ -420,6 +420,11 @@ class ApiGen:
             plain_top("zz_lookup", [("key", Tt.TupleType([str_t, str_t]))])
             plain_top("zz_collect", [("items", Tt.SetType([int_t])), ("more", Tt.SetType([str_t]))])
             plain_top("zz_unique", [("names", Tt.SetType([str_t]))])
+            # classes that name `object` among their bases (old style): generation must not touch the superclass lists
+            for nm, sup in (("ZzPlainObject", ["builtins.object"]), ("ZzMixedObject", [f"{m0.id.replace('/', '.')}.ZzPlainObject", "builtins.object"])):
+                c_obj = A.Class(id=f"{m0.id}/{nm}", name=nm, superclasses=list(sup), is_public=path_public, docstring=D.ClassDocstring())
+                api.add_class(c_obj)
+                m0.add_class(c_obj)
             # Literal values with a quote, a backslash, a backslash before a quote, a line break (escaped in the stub since
             # d913d69), alone and next to None / another type
             odd = Tt.LiteralType(['q"t', "b\\s", 'u\\"v', "l\nb"])
